@@ -318,19 +318,19 @@ def spectralSettings (ceil : α → Int) (w2p : List (List α)) (mbpp : Nat) : O
   | _, _, _ => none
 
 /-- what the polychromator reads from a filter -/
-structure Filter (α : Type) where
+structure PFilter (α : Type) where
   minW : α
   maxW : α
   window : α
 
 /-- `PolychromatorFilter.__init__` on sorted wavelengths: bounds, window -/
-def filterOf (first last : α) : Filter α := ⟨first, last, last - first⟩
+def filterOf (first last : α) : PFilter α := ⟨first, last, last - first⟩
 
 /-- `TrapezoidalFilter(central_wavelength, window)`: outer corners of the trapezoid -/
-def trapezoid (c w : α) : Filter α := filterOf (c - 0.5 * w) (c + 0.5 * w)
+def trapezoid (c w : α) : PFilter α := filterOf (c - 0.5 * w) (c + 0.5 * w)
 
 /-- `Polychromator._update_spectral_settings` (`inf` = `numpy.inf`) -/
-def polySettings (ceil : α → Int) (inf : α) (fs : List (Filter α)) (mbpw : Nat) : Settings α :=
+def polySettings (ceil : α → Int) (inf : α) (fs : List (PFilter α)) (mbpw : Nat) : Settings α :=
   let acc := fs.foldl (fun (acc : α × α × α) f =>
     (pmin acc.1 (f.window / (mbpw : α)), pmin acc.2.1 f.minW, pmax acc.2.2 f.maxW)) (inf, inf, 0)
   ⟨acc.2.1, acc.2.2, acc.1, ceil ((acc.2.2 - acc.2.1) / acc.1)⟩
